@@ -680,6 +680,100 @@ pub mod verif {
     }
 }
 
+/// Verification hook (compiled only with `--cfg nomt_verif`): hand-built leaves (inline and overflow
+/// cells), bottom-level branch nodes and staging maps for `merkle::seek::verif::SeekSim`.
+#[cfg(nomt_verif)]
+#[allow(missing_docs)]
+pub mod verif_tree {
+    use crate::beatree::{
+        branch::{node::get_key, BranchNode, BranchNodeBuilder},
+        index::Index,
+        leaf::node::{LeafBuilder, LeafNode},
+        ops::{bit_ops, overflow},
+        Key, PageNumber, ValueChange,
+    };
+    use crate::io::PagePool;
+    use imbl::OrdMap;
+    use std::sync::Arc;
+
+    /// A stored value: inline bytes, or an overflow cell `(value size, value hash, pages)`.
+    #[derive(Clone, Debug)]
+    pub enum Val {
+        Inline(Vec<u8>),
+        Overflow(usize, [u8; 32], Vec<u32>),
+    }
+
+    /// One leaf: the separator its branch node holds for it and its (ascending) entries.
+    pub type LeafSpec = (Key, Vec<(Key, Val)>);
+
+    /// The page number of the `i`-th leaf of the flattened list of leaves.
+    pub const PN_BASE: u32 = 100;
+
+    fn cell(pages: &[u32], size: usize, hash: [u8; 32]) -> Vec<u8> {
+        let pages: Vec<PageNumber> = pages.iter().map(|pn| PageNumber(*pn)).collect();
+        overflow::encode_cell(size, hash, &pages)
+    }
+
+    /// A staging map as a commit leaves it: overflow values are held as their cell.
+    pub fn staging(items: Vec<(Key, Option<Val>)>) -> OrdMap<Key, ValueChange> {
+        items
+            .into_iter()
+            .map(|(k, v)| {
+                (
+                    k,
+                    match v {
+                        None => ValueChange::Delete,
+                        Some(Val::Inline(v)) => ValueChange::Insert(v),
+                        Some(Val::Overflow(size, hash, pages)) => {
+                            ValueChange::InsertOverflow(cell(&pages, size, hash), hash)
+                        }
+                    },
+                )
+            })
+            .collect()
+    }
+
+    /// `branches`: the bottom-level branch nodes in order, each a non-empty list of leaves.
+    pub fn build_tree(
+        page_pool: &PagePool,
+        branches: Vec<Vec<LeafSpec>>,
+    ) -> (Index, Vec<Arc<LeafNode>>) {
+        let mut leaves: Vec<Arc<LeafNode>> = Vec::new();
+        let mut index = Index::default();
+        for branch_leaves in branches {
+            let n = branch_leaves.len();
+            let first = branch_leaves[0].0;
+            let prefix_len = if n == 1 {
+                bit_ops::separator_len(&first)
+            } else {
+                bit_ops::prefix_len(&branch_leaves[n - 1].0, &first)
+            };
+            let branch = BranchNode::new_in(page_pool);
+            let mut builder = BranchNodeBuilder::new(branch, n, n, prefix_len);
+            for (separator, entries) in branch_leaves {
+                let pn = PN_BASE + leaves.len() as u32;
+                builder.push(separator, bit_ops::separator_len(&separator), pn);
+                let cells: Vec<(Key, Vec<u8>, bool)> = entries
+                    .into_iter()
+                    .map(|(k, v)| match v {
+                        Val::Inline(v) => (k, v, false),
+                        Val::Overflow(size, hash, pages) => (k, cell(&pages, size, hash), true),
+                    })
+                    .collect();
+                let total: usize = cells.iter().map(|e| e.1.len()).sum();
+                let mut leaf = LeafBuilder::new(page_pool, cells.len(), total);
+                for (k, v, overflow) in cells {
+                    leaf.push_cell(k, &v, overflow);
+                }
+                leaves.push(Arc::new(leaf.finish()));
+            }
+            let branch = Arc::new(builder.finish());
+            index.insert(get_key(&branch, 0), branch);
+        }
+        (index, leaves)
+    }
+}
+
 #[cfg(test)]
 mod tests {
     use super::IterOutput;
